@@ -116,12 +116,15 @@ func famRefs(w *bufio.Writer, seed uint64, n int) error {
 		childOnly := children && r.chance(1, 2)
 		var s *moss.Store
 		var c moss.Collection
+		var lastSO moss.StoreOptions
+		var lastPO moss.StorePersistOptions
 		open := func(concern int) error {
 			cfg.Concern = concern
 			h := newH(cfg, dir)
 			h.gating = 0
 			so, po := h.storeOptions()
 			so.CollectionOptions.MergerIdleRunTimeoutMS = -1
+			lastSO, lastPO = so, po
 			var err error
 			s, c, err = moss.OpenStoreCollection(dir, so, po)
 			return err
@@ -171,7 +174,7 @@ func famRefs(w *bufio.Writer, seed uint64, n int) error {
 		var labels []sx
 		collOpen, storeOpen := true, true
 		for st := 0; st < steps; st++ {
-			choice := r.pick([]int{30, 12, 8, 8, 8, 6, 18, 4, 3, 3, 6})
+			choice := r.pick([]int{30, 12, 8, 8, 8, 6, 18, 4, 3, 3, 6, 7, 8})
 			if i == 0 {
 				choice = 0
 			}
@@ -330,6 +333,62 @@ func famRefs(w *bufio.Writer, seed uint64, n int) error {
 						lastFile = ""
 						labels = append(labels, L("reopen", cfg.Concern))
 					}
+				}
+			case 11:
+				// an iterator that outlives its snapshot: a batch that is (most likely) still in memory,
+				// a snapshot over it and the persisted data, a heap iterator on it run to its end, the
+				// snapshot closed at once.  Later rounds drop the collection's cached copy of the stack,
+				// so the iterator alone keeps it (and its lower level) alive for the re-reads
+				if !collOpen || i == 0 {
+					continue
+				}
+				b := g.nonEmptyBatch()
+				if childOnly {
+					continue
+				}
+				if err := (&H{coll: c}).execBatch(b); err != nil {
+					note("ExecuteBatch: %v", err)
+					continue
+				}
+				if ss, err := c.Snapshot(); err == nil && ss != nil {
+					if it, err := ss.StartIterator(nil, nil, moss.IteratorOptions{}); err == nil && it != nil {
+						nextID++
+						handles = append(handles, &handle{id: nextID, kind: "iter-outliving-its-snapshot", iter: it, content: readIterRest(it), parent: 0})
+						labels = append(labels, L("round-nowait"), L("iter-outliving-snapshot"))
+					}
+					ss.Close()
+				}
+			case 12:
+				// revert to the previous persisted state while that previous snapshot stays open: the
+				// collection is closed, Store.SnapshotRevert() writes a footer equal to the older one, a
+				// new collection is opened on the store and goes on; the held previous snapshot (and its
+				// child collections) must keep reading the same through the rounds that follow
+				if !collOpen || !storeOpen || i == 0 {
+					continue
+				}
+				waitPersisted(c)
+				c.Close()
+				collOpen = false
+				labels = append(labels, L("closecoll"))
+				if cur, err := s.Snapshot(); err == nil && cur != nil {
+					prev, err := s.SnapshotPrevious(cur)
+					cur.Close()
+					if err == nil && prev != nil {
+						addSnap("store-snapshot", prev, 0)
+						if err := s.SnapshotRevert(prev); err == nil {
+							labels = append(labels, L("revert"))
+							lastFile = ""
+						} else {
+							labels = append(labels, L("revert-refused"))
+						}
+					}
+				}
+				if nc, err := s.OpenCollection(lastSO, lastPO); err == nil && nc != nil {
+					c = nc
+					collOpen = true
+					labels = append(labels, L("opencoll"))
+				} else {
+					note("OpenCollection after a revert: %v", err)
 				}
 			case 9: // close the store too
 				if !collOpen && storeOpen {
